@@ -25,6 +25,7 @@ type vhGate struct {
 	processed []bool
 	timedOut  bool
 	queue     []int // signals queued in the ready group, oldest first
+	reenter   int
 }
 
 func vhNewGate(P int) *vhGate {
@@ -41,6 +42,12 @@ func vhNewGate(P int) *vhGate {
 		}
 		g.lastAll = all
 		g.checkFire()
+		// re-entrancy: the consumer of the callback may set up the next hand from inside it
+		// (configuration re=1); the new set-up must then work like any other
+		if verifrt.Cfg("re") == 1 && g.reenter < 1 && verifrt.BoolI("re.now", g.reenter) {
+			g.reenter++
+			g.setup(5)
+		}
 	}}).(*openGameManager)
 	g.m.rg.ModelSetStepped(true)
 	return g
@@ -67,11 +74,13 @@ func (g *vhGate) checkFire() {
 	verifrt.Assert(ok, "callback never fires before every participant has signalled ready unless the timeout elapsed")
 }
 
-func (g *vhGate) setup(step int) {
+func (g *vhGate) setup(step int) { g.setupWith(step, false) }
+
+func (g *vhGate) setupWith(step int, everybody bool) {
 	gc := verifrt.IntRangeI("gc", step, 1, 3)
 	parts := map[string]int{}
 	for j := 0; j < g.P; j++ {
-		in := verifrt.BoolI("member"+vhPart[step], j)
+		in := everybody || verifrt.BoolI("member"+vhPart[step], j)
 		g.member[j] = in
 		g.processed[j] = false
 		if in {
@@ -131,6 +140,13 @@ func (g *vhGate) step(step int) {
 	case 4: // timeout expires (if armed): remaining participants are auto-readied
 		if g.m.rg.ModelTimerArmed() {
 			g.timedOut = true
+			firedBefore := g.fired
+			anyMember := false
+			for j := 0; j < g.P; j++ {
+				if g.member[j] {
+					anyMember = true
+				}
+			}
 			g.m.rg.ModelFireTimeout()
 			// at most one queued signal per participant plus the auto-ready ones
 			for i := 0; i < 2*g.P+2; i++ {
@@ -141,16 +157,10 @@ func (g *vhGate) step(step int) {
 			}
 			verifrt.Assert(g.m.rg.ModelQueueLen() == 0, "harness bound on queued signals suffices")
 			g.queue = g.queue[:0]
-			anyMember := false
-			for j := 0; j < g.P; j++ {
-				if g.member[j] {
-					anyMember = true
-				}
-			}
 			// (an empty set-up never completes: nobody is there to be auto-readied; the
 			// engine's callback ignores set-ups with fewer than two participants anyway)
 			if g.gen > 0 && anyMember {
-				verifrt.Assert(g.firedGen == 1, "after the timeout the callback has fired for the current set-up")
+				verifrt.Assert(g.fired == firedBefore+1, "after the timeout the callback has fired for the current set-up")
 			}
 		}
 	}
@@ -187,6 +197,74 @@ func VH_C09_Gate() {
 		if !g.timedOut && !(any && all) {
 			verifrt.Assert(g.firedGen == 0, "withheld signal and no timeout: the callback has not fired")
 		}
+	}
+	verifrt.Reach("end")
+}
+
+// VH_C09_Reenter: the consumer sets up the next hand from inside the ready
+// callback of the previous one; the new set-up must behave like any other (it
+// completes when its participants signalled, or at the timeout, exactly once).
+func VH_C09_Reenter() {
+	P := verifrt.Cfg("P")
+	g := &vhGate{P: P, member: make([]bool, P), processed: make([]bool, P)}
+	second := false
+	g.m = NewOpenGameManager(OpenGameOption{Timeout: 2, OnOpenGameReady: func(s OpenGameState) {
+		g.fired++
+		g.firedGen++
+		g.last = s
+		g.checkFire()
+		if !second {
+			second = true
+			g.setup(1) // next hand set up from inside the callback
+		}
+	}}).(*openGameManager)
+	g.m.rg.ModelSetStepped(true)
+	// the first hand names every participant (so that its callback fires at one definite
+	// point); the set-up made inside the callback names an arbitrary subset
+	g.setupWith(0, true)
+	// first hand: everybody signals, signals are processed
+	for j := 0; j < P; j++ {
+		if g.member[j] {
+			verifrt.Assert(g.m.Ready(vhPart[j]) == nil, "participant's signal accepted")
+			g.queue = append(g.queue, j)
+		}
+	}
+	for i := 0; i < P; i++ {
+		g.processOne()
+	}
+	verifrt.Assert(g.fired == 1 && second && g.gen == 2, "first hand's callback fired and set up the second hand")
+	any1 := false
+	for j := 0; j < P; j++ {
+		if g.member[j] {
+			any1 = true
+		}
+	}
+	// second hand: an arbitrary subset signals, then the timeout
+	for j := 0; j < P; j++ {
+		if g.member[j] && verifrt.BoolI("signals2", j) {
+			verifrt.Assert(g.m.Ready(vhPart[j]) == nil, "participant's signal accepted (second hand)")
+			if g.m.rg.ModelStarted() {
+				g.queue = append(g.queue, j)
+			}
+		}
+	}
+	for i := 0; i < P; i++ {
+		g.processOne()
+	}
+	if any1 {
+		verifrt.Assert(g.m.rg.ModelStarted() || g.fired == 2, "the set-up made inside the callback is armed")
+		if g.fired < 2 {
+			verifrt.Assert(g.m.rg.ModelTimerArmed(), "an unfinished set-up has its timeout armed")
+			g.timedOut = true
+			g.m.rg.ModelFireTimeout()
+			for i := 0; i < 2*P+2; i++ {
+				if g.m.rg.ModelQueueLen() > 0 {
+					g.m.rg.ModelProcessOne()
+					g.m.rg.ModelRunCompletion()
+				}
+			}
+		}
+		verifrt.Assert(g.fired == 2, "the hand set up from inside the callback fires exactly once")
 	}
 	verifrt.Reach("end")
 }
